@@ -266,6 +266,7 @@ func (ex *Exec) callMerged(fn *ssa.Function, args []Value, env []Value, site ssa
 	savedFacts, savedSubst, savedInt := ex.facts, ex.subst, ex.intFacts
 	savedRC, savedUB := ex.readCache, ex.ubCache
 	defer func() { ex.readCache, ex.ubCache = savedRC, savedUB }()
+	savedSync := ex.syncDepth
 	mark := ex.objSeq
 	var outs []mergedOut
 	dropped := 0
@@ -295,6 +296,11 @@ func (ex *Exec) callMerged(fn *ssa.Function, args []Value, env []Value, site ssa
 			ex.intFacts[k] = v
 		}
 		ex.ivalMemo, ex.nzMemo = nil, nil
+		if ex.syncDepth != savedSync {
+			// a sub-path ended inside a synchronised region
+			ex.syncDepth = savedSync
+			ex.setSoftFrozen(savedSync == 0)
+		}
 		ex.readCache = &readCache{m: map[[2]int]*smt.Term{}, up: savedRC}
 		ex.ubCache = make(map[int]int, len(savedUB))
 		for k, v := range savedUB {
